@@ -72,7 +72,7 @@ Definition err_kind (e : err) : Z :=
   | EDupCmeta => 6 | EReaction => 7 | ERelCount => 8 | EKeyComp => 9 | EParentSet => 10 | EMissingComp => 11
   | EMissingVar => 12 | ENoDirection => 13 | ETargetAssigned => 14 | EConnStuck => 15 | EDim => 16 | ECmeta => 17
   | EDefinedTwice => 18 | EUndefinedIdent => 19 | EUnknownCnUnit => 20 | EHigherOrder => 21 | EBadLhs => 22
-  | EStateNoInit => 23
+  | EStateNoInit => 23 | ECycle => 24
   end.
 
 (* exception family: 1 ValueError, 2 KeyError, 3 AssertionError, 4 pint DimensionalityError, 5 TypeError,
